@@ -367,6 +367,7 @@ pub fn block(name: &str, c: &AlphaCtx, out: &mut Vec<Op>) {
                 for op in [OpK::SInsert, OpK::SReplace, OpK::SRemove, OpK::STake, OpK::SGet, OpK::SContains, OpK::SGetOrInsert, OpK::SGetOrInsertOwned, OpK::SGetOrInsertWith] {
                     out.push(Op::key(op, k));
                 }
+                out.push(Op::new(OpK::SGetOrInsertWith, k, 1));
             }
         }
         "sshape" | "sshape2" => {
